@@ -29,10 +29,10 @@ CHECKS = {
    technique="exhaustive single-threaded program enumeration on the real Executor with instrumented futures/outputs; loom (preemption-bounded exhaustive interleavings) for handle / waker / executor-drop operations from other threads",
    text="(a) every program up to depth 6 (quick) / 7 (thorough) over {spawn (7 task kinds: ready, pending-until-woken, self-waking, wake-and-finish, panicking, waking a sibling, dropping a sibling's handle), wake, tick, poll-handle, drop-handle, detach, drop-executor} with <= 3 tasks and max_interval in {1,2,61} runs on the real executor; oracle: polled only inside tick and never after finishing or (beyond the fairness bound) after cancellation, future dropped exactly once, output delivered xor dropped exactly once, results/panics reach only their own handle, starvation bound ceil(tasks/max_interval)+1 ticks, handles resolve after executor drop, no panic. (b) loom: handle awaited (parking and busy-polling), dropped or cancelled on another thread while the home thread runs the task; waker used on another thread while the executor is dropped; output taken remotely while the executor is dropped; futures carry loom cells so any poll/drop off the home thread is reported.",
    note="Trusted: loom; instrumented futures. A leaked clone of the join handle's waker (observed, outside the property's statement) is reported as an outcome class, not a violation."),
- "C06": dict(engine="e3loom", design="§2/C06",
-   technique="loom: exhaustive interleaving exploration of the real compio-driver/src/fd.rs (include!d, synchrony re-bound to loom Arc/AtomicBool/AtomicWaker)",
-   text="Layer (b) of DESIGN §2/C06 (handles shareable across threads, feature sync): closer awaiting take() vs 1-2 holders dropping on other threads, clone-then-drop, two concurrent closers, try_unwrap vs drop, droppers only. Oracle: the closer resolves (no deadlock), exactly one closer obtains the descriptor, the descriptor is dropped exactly once and never while a holder still uses it (loom cell tracking). Layer (a), single-threaded close protocol and descriptor-leak accounting on the real runtime, is not yet part of this check.",
-   note="Trusted: loom; shim_synchrony (Shared = loom Arc, WakerSlot = loom AtomicWaker). Known findings: closer can sleep forever (two entries)."),
+ "C06": dict(engine="e_c06+e3loom", design="§2/C06",
+   technique="exhaustive program enumeration of the close protocol and of cancelled descriptor-producing operations on the real runtime (both drivers) with /proc/self/fd accounting in single-threaded worker processes; loom on the real fd.rs for cross-thread handles",
+   text="(a) every program up to depth 5 (quick) / 6 (thorough) over {clone, drop-handle, start-op (pending read), complete-op, cancel-op, close-create, close-poll with a fresh waker each time, close-drop (unpolled or pending), harvest} on a compio_net::UnixStream, and every order of {submit, peer-connects, cancel, harvest, poll} for accept and File::open, on io_uring and polling, each from a fresh runtime: close().await is Ready exactly when no other handle and no unfinished operation holds the descriptor (not before; at the next poll after the last release; its latest waker woken), and at the end the process has exactly the descriptors it started with (no leak, no double close: a canary re-using the number survives). (b) loom on the real fd.rs (feature sync): closer vs 1-2 droppers on other threads, clone-then-drop, two concurrent closers, try_unwrap vs drop, droppers only.",
+   note="Trusted: /proc/self/fd in a single-threaded worker process; bounded waits (<= 500 ms) only for completions the harness enabled that run on the blocking pool (close / File::open on the polling driver); loom + shim_synchrony for (b). Known findings (feature sync only): closer can sleep forever across threads (2 entries)."),
  "C17": dict(engine="e3loom", design="§2/C17",
    technique="loom: exhaustive interleaving exploration of the real compio-driver/src/asyncify.rs (include!d; flume re-bound to a loom rendezvous channel, std::thread to loom)",
    text="Layer (a) of DESIGN §2/C17: 1-3 dispatcher threads (several runtimes sharing a pool) x thread_limit 1-2 with the drivers' retry loop, and worker retirement after the idle timeout followed by a late job. Oracle: every job body runs exactly once, a handed-back job is the same job, jobs running at once <= thread_limit at every point, a job after retirement still runs, no deadlock.",
@@ -49,6 +49,10 @@ CHECKS = {
    technique="bounded exhaustive enumeration of harness step sequences (gated child process x manually stepped compio runtime) on the real compio-process/runtime/driver code, both drivers and both wait paths, position-coded stream and exit-status oracle",
    text="Every plan of the families {full, out, outerr, in, duplex, status, output, managed} (sub-alphabets of ChildOut/Err(n), ChildReadIn, ChildClose, ChildExit(mode), ReadOut/Err(chunk), WriteIn(len), CloseIn, WaitPoll, OutputPoll, Harvest; depth 3-4 quick / 4-6 thorough with a stop alternative at every position; sizes {1, cap-1, cap, cap+1, 2cap}, chunks {1, 4096, cap}, exit modes {0,1,255,TERM,KILL}) runs once from a fresh runtime, thread and child (the harness's own binary obeying commands over a control socket), followed by a canonical drain/exit/wait epilogue, on io_uring and polling and with the blocking-pool and pidfd wait paths. Checked at every step: stdout/stderr bytes equal the commanded bytes in order and complete, EOF only after close/exit, the child's stdin checksum equals the bytes acknowledged as written, wait is Pending before the exit step and yields exactly the commanded code or signal afterwards, no runtime-thread blocking.",
    note="Trusted: child state machine and control protocol, Linux pipe semantics, /proc/<tid>/syscall for blocked-thread detection; a 20 s watchdog; 30/100 ms grace for 'wait stays pending'; violations re-executed twice before being reported. Not covered: Child::kill, cancelling in-flight stdio/wait futures, pipe capacities other than 65536. Known finding: stdin write blocks the runtime thread on the polling driver."),
+ "C05": dict(engine="e_c05", design="§2/C05",
+   technique="real-kernel operation-sequence exploration: exhaustive enumeration of harness step sequences (submit / cancel by drop, token, timeout / register-after-fire / make-ready / harvest / cancel-again) on fresh compio runtimes, both drivers, byte- and connection-conservation oracle",
+   text="Ten scenarios of 2-3 pending recv / pipe read / accept / connect (blackholed) / PollOnce operations with at least two on one descriptor, two tokens plus token-less ops; every prefix of every step sequence up to depth 5-6 (polling) / 4 (io_uring) in quick, 7 / 5 in thorough is its own execution on a fresh runtime, followed by an epilogue (make everything ready until all uncancelled ops complete), teardown and a conservation audit. Oracle: a cancelled op finishes without its descriptor being made ready (or, on the drop route, its storage is released); its result is a cancellation error or a genuine result (bytes are a run of what the peer wrote and are consumed from the stream; never Ok(0)/foreign errors/fabricated readiness); every uncancelled op, also on the same descriptor, stays pending through a grace period and later gets exactly its model result; cancel twice / after completion changes nothing; an op registered under a fired token is cancelled; a canary checks that a token attached with with_cancel is visible to the op.",
+   note="Trusted: harness peers, zero-timeout harvest to quiescence, 2/6 ms grace for negative observations, poisoning allocator + crash supervisor (a crash is re-run in isolation and reported only if it reproduces); the timeout route is the only real-time step (a scheduler-disturbed execution is repeated). Which of two readers on one descriptor the kernel serves first is accepted either way. Not covered: connect success racing a cancel, peer close racing a cancel, vectored/multishot/managed/zero-copy and send ops, io_uring beyond depth 4/5."),
 }
 
 NOT_YET = {
@@ -100,6 +104,8 @@ def main():
             {"name": "e_c09", "path": "/verif/e_c09", "serves_properties": ["C09"], "kind_free_text": "explicit-state BFS with a virtual clock over the transplanted timer sources (build.rs copies them from /repo and re-binds std), plus real-time trace conformance on the real runtime"},
             {"name": "e_c03", "path": "/verif/e_c03", "serves_properties": ["C03"], "kind_free_text": "wake-position enumerator on the real drivers (cfg(compio_verif) interleaving points inside Driver::poll/flush)"},
             {"name": "e_c20", "path": "/verif/e_c20", "serves_properties": ["C20"], "kind_free_text": "plan enumerator over a gated child process and a manually stepped runtime, sharded over worker processes"},
+            {"name": "e_c06", "path": "/verif/e_c06", "serves_properties": ["C06"], "kind_free_text": "close-protocol / descriptor-accounting program enumerator on the real runtime, sharded over single-threaded worker processes"},
+            {"name": "e_c05", "path": "/verif/e_c05", "serves_properties": ["C05"], "kind_free_text": "real-kernel operation-sequence explorer for cancellation (both drivers), supervisor process for crash containment"},
             {"name": "e2pure", "path": "/verif/e2pure", "serves_properties": ["C10", "C11", "C12", "C13"], "kind_free_text": "input-exhaustive / deviation-bounded explorer driving real compio-buf and compio-io code (stateless DFS with prefix replay, vcore::explore)"},
         ],
         "checks": checks,
